@@ -466,6 +466,11 @@ class ProcessContinuation(Event):
         """Advance the generator to its next yield and schedule the continuation."""
         from happysimulator.core.sim_future import SimFuture
 
+        # A crashed/paused target executes nothing: drop the resumption, exactly
+        # as Event.invoke() drops events delivered to a crashed target.
+        if getattr(self.target, "_crashed", False):
+            return []
+
         tracing_on = _event_tracing_enabled
         if tracing_on:
             self.trace("process.resume.start")
